@@ -1,0 +1,18 @@
+//go:build verif
+
+package tagstree
+
+// C09 (label matchers behave as in PromQL): a regex matcher =~ / !~ is fully
+// anchored, i.e. the tag value is matched against ^(pattern)$ with the pattern
+// grouped so that a top-level alternation stays inside the anchors, and the
+// value is accepted iff (it matches and the operator is =~) or (it does not
+// match and the operator is !~).  The meaning of the regular expression itself
+// is regexp's; "fullyAnchored(s, p)" is an uninterpreted predicate that govc
+// derives from the literal format of the Sprintf that builds s
+// (sprintfAnchoredRegex).  Checked by /verif/bin/govc.  Comment-only file.
+//@ func acceptRegexVal
+//@   props C09
+//@   site call regexp.Match #1:
+//@     assert [matcher-is-fully-anchored] uf("fullyAnchored", bool, arg0, pattern) && samebase(arg1, tagRawValue) && len(arg1) == len(tagRawValue)
+//@   ensures [accept-iff-match-agrees-with-operator] implies(result1 == nil, result0 == ((matched && tagOperator == sutils.Regex) || (!matched && tagOperator == sutils.NegRegex)))
+//@ end
